@@ -132,7 +132,7 @@ def h_atom_site(eng, group, marker, charge_marker, has_alt, name_len, comp_len, 
         maxw = max(maxw, *widths.values())
         idw, seqw = max(idw, iw), max(seqw, sw)
     eng.derived.update(coord_width=maxw, id_width=idw, seq_width=seqw)
-    sh = (builtin_shims(pdb, ("int", "float")) + [(pdb, "str", strs.sym_str_t), (cif, "str", strs.sym_str_t)]) if eng.symbolic else []
+    sh = (builtin_shims(pdb, ("int", "float")) + builtin_shims(cif, ("int", "float")) + [(pdb, "str", strs.sym_str_t), (cif, "str", strs.sym_str_t)]) if eng.symbolic else []
     with patched(*sh):
         if earlier_file:
             # another mmCIF file was read earlier in this process; its atom_site loop lists the items in another order
